@@ -360,8 +360,9 @@ package jrpc2
 // filterBatchLocked keeps the request-shaped members. A reply-shaped member
 // whose id names an outstanding callback completes that callback (entry
 // removed, then the single write to its slot). On a push-enabled server a
-// reply-shaped member that matches nothing is dropped: it is neither kept (it
-// would be answered as an invalid request) nor answered.
+// reply-shaped member (one with a result or error) that matches nothing is
+// dropped: it is neither kept (it would be answered as an invalid request)
+// nor answered. Every other member is kept, valid or not.
 //@ func (*Server).filterBatchLocked
 //@   requires wfServer(s) && held(s.mu) && Server_mu_inv(s) && forall(i int, 0 <= i && i < len(next) ==> next[i] != nil)
 //@   modifies map(s.call)
@@ -373,18 +374,26 @@ package jrpc2
 //@   ghostvar kdst ArrInt
 //@   at call.append#1 ghostset kdst = store(kdst, rangeindex + 1, len(keep))
 //@   at call.append#2 ghostset kdst = store(kdst, rangeindex + 1, len(keep))
+// replyShaped(m): m carries a result or an error member. Only such a member
+// can be "a reply"; anything else that is not a well-formed request is an
+// invalid request and must be answered at its position (C02) - on a
+// push-enabled server too. mustKeep(m): request-shaped, or neither
+// reply-shaped nor bearing the id of an outstanding callback.
+//@ pure replyShaped(m *jmessage) Bool = m != nil && (m.R != nil || m.E != nil)
 //@   ensures[C02:request-shaped-members-kept] forall(j int, 0 <= j && j < len(next) && reqShaped(old(next[j])) ==> 0 <= kdst[j] && kdst[j] < len(result) && result[kdst[j]] == old(next[j]))
+//@   ensures[C02:invalid-members-kept] forall(j int, 0 <= j && j < len(next) && !replyShaped(old(next[j])) && !old(in(s.call, idKey(old(next[j]).ID))) ==> 0 <= kdst[j] && kdst[j] < len(result) && result[kdst[j]] == old(next[j]))
 //@   loop 1 invariant forall(j int, 0 <= j && j <= rangeindex && reqShaped(old(next[j])) ==> 0 <= kdst[j] && kdst[j] < len(keep) && keep[kdst[j]] == old(next[j]))
+//@   loop 1 invariant forall(j int, 0 <= j && j <= rangeindex && !replyShaped(old(next[j])) && !old(in(s.call, idKey(old(next[j]).ID))) ==> 0 <= kdst[j] && kdst[j] < len(keep) && keep[kdst[j]] == old(next[j]))
 //@   ensures[C01:kept-members-in-arrival-order] forall(i int, j int, 0 <= i && i < len(result) && j == ksrc[i] ==> 0 <= j && j < len(next) && result[i] == old(next[j])) && forall(i1 int, i2 int, 0 <= i1 && i1 < i2 && i2 < len(result) ==> ksrc[i1] < ksrc[i2])
 //@   loop 1 invariant forall(i int, 0 <= i && i < len(keep) ==> 0 <= ksrc[i] && ksrc[i] <= rangeindex)
 //@   loop 1 invariant forall(i int, j int, 0 <= i && i < len(keep) && j == ksrc[i] ==> keep[i] == old(next[j]))
 //@   loop 1 invariant forall(i1 int, i2 int, 0 <= i1 && i1 < i2 && i2 < len(keep) ==> ksrc[i1] < ksrc[i2])
-//@   ensures[C09:drop-unmatched] s.allowP ==> forall(i int, 0 <= i && i < len(result) ==> reqShaped(result[i]))
+//@   ensures[C09:drop-unmatched] s.allowP ==> forall(i int, 0 <= i && i < len(result) ==> !replyShaped(result[i]))
 //@   ensures[C09:inv] Server_mu_inv(s)
 //@   loop 1 invariant Server_mu_inv(s) && len(keep) <= rangeindex + 1
 //@   loop 1 invariant forall(k string, old(in(s.call, k)) && !in(s.call, k) ==> chansends(old(lookup(s.call, k)).ch) >= 1)
 //@   loop 1 invariant forall(k string, in(s.call, k) ==> old(in(s.call, k)) && lookup(s.call, k) == old(lookup(s.call, k)))
-//@   loop 1 invariant forall(i int, 0 <= i && i < len(keep) ==> keep[i] != nil && (s.allowP ==> reqShaped(keep[i])))
+//@   loop 1 invariant forall(i int, 0 <= i && i < len(keep) ==> keep[i] != nil && (s.allowP ==> !replyShaped(keep[i])))
 
 // ---------------------------------------------------------------------------
 // Server life cycle (C08, C10)
